@@ -28,6 +28,13 @@ VIEWS = ("positions_xyz", "orientations_quat_wxyz", "poses_se3", "distances",
          "path_length", "num_poses", "timestamps", "speeds")
 
 
+class ViewUnreadable(Exception):
+    """reading a view of (a deep copy of) an object raised"""
+    def __init__(self, view, exc):
+        self.view = view
+        self.exc = exc
+
+
 class Violation(Exception):
     def __init__(self, prop, what, **detail):
         self.prop = prop
@@ -186,7 +193,12 @@ class Machine:
         for view in ("num_poses", "positions_xyz", "orientations_quat_wxyz",
                      "poses_se3", "distances", "path_length"):
             c = copy.deepcopy(obj)
-            vals[view] = _read_view(c, view)
+            try:
+                vals[view] = _read_view(c, view)
+            except HarnessError:
+                raise
+            except Exception as e:  # noqa
+                raise ViewUnreadable(view, e)
         p.n = int(vals["num_poses"])
         p.pos = vals["positions_xyz"]
         p.quat = vals["orientations_quat_wxyz"]
@@ -210,7 +222,10 @@ class Machine:
         random.Random(self.order_seed * 7919 + 13).shuffle(order)
         c = copy.deepcopy(obj)
         for view in order:
-            v = _read_view(c, view)
+            try:
+                v = _read_view(c, view)
+            except Exception as e:  # noqa
+                raise ViewUnreadable(view, e)
             w = vals[view]
             same = (np.array_equal(v, w) if isinstance(w, np.ndarray) else
                     (v == w or (v != v and w != w)))
